@@ -206,7 +206,22 @@ def is_lambda(a_function: CallableT) -> bool:
 
     :return: True if condition is defined as lambda function
     """
-    return a_function.__name__ == "<lambda>"
+    # (A condition need not be a function: ``functools.partial`` objects and instances with ``__call__`` have no name.)
+    return getattr(a_function, "__name__", None) == "<lambda>"
+
+
+def _name_of_condition(condition: Callable[..., Any]) -> str:
+    """
+    Name the condition in a message.
+
+    A function is named by its name, any other callable (*e.g.*, a ``functools.partial`` object or an instance
+    with ``__call__``) by its class.
+    """
+    name = getattr(condition, "__name__", None)
+    if isinstance(name, str):
+        return name
+
+    return type(condition).__name__
 
 
 class ConditionLambdaInspection:
@@ -754,7 +769,7 @@ def represent_condition(condition: CallableT) -> str:
     """Represent the condition as a string."""
     lambda_inspection = None  # type: Optional[ConditionLambdaInspection]
     if not is_lambda(a_function=condition):
-        condition_repr = condition.__name__
+        condition_repr = _name_of_condition(condition)
     else:
         # We need to extract the source code corresponding to the decorator since inspect.getsource() is broken with
         # lambdas.
@@ -777,7 +792,7 @@ def generate_message(contract: Contract, resolved_kwargs: Mapping[str, Any]) -> 
 
     lambda_inspection = None  # type: Optional[ConditionLambdaInspection]
     if not is_lambda(a_function=contract.condition):
-        condition_text = contract.condition.__name__
+        condition_text = _name_of_condition(contract.condition)
     else:
         # We need to extract the source code corresponding to the decorator since inspect.getsource() is broken with
         # lambdas.
